@@ -19,6 +19,7 @@ func (v *Vue) evaluateChildren(ctx VueContext, node *html.Node, depth int) ([]*h
 }
 
 func (v *Vue) evaluate(ctx VueContext, nodes []*html.Node, depth int) ([]*html.Node, error) {
+	verifPoint(vpEvalEnter, depth, len(ctx.TemplateStack))
 	var result []*html.Node
 
 	for i := 0; i < len(nodes); i++ {
